@@ -63,7 +63,7 @@ func main() {
 		lists = append(lists, triples[:40]...)
 	}
 	lists = append(lists, []string{"S1"}, []string{"S2"}, []string{"U4", "X1"}, []string{"E1", "U4", "R4"}, []string{"R5"}, []string{"R6"}, []string{"X2", "R5", "R6"})
-	full := []string{"X1", "X2", "X3", "E1", "E2", "R1", "R2", "R3", "R4", "R5", "R6", "U0", "U1", "U2", "U3", "U4"}
+	full := []string{"X1", "X2", "X3", "E1", "E2", "R1", "R2", "R3", "R4", "R5", "R6", "U0", "U1", "U2", "U3", "U4", "A1", "A2", "A3"}
 	for i := 0; i < r.Pick(12, 60); i++ {
 		n := 4 + rng.Intn(5)
 		l := make([]string, n)
